@@ -12,9 +12,9 @@ import (
 )
 
 func init() {
-	props["C03"] = &prop{gen: genC03, eval: evalC03}
-	props["C04"] = &prop{gen: genC04, eval: evalC04}
-	props["C11"] = &prop{gen: genC11, eval: evalC11}
+	props["C03"] = &prop{gen: genC03, eval: evalC03, pure: true}
+	props["C04"] = &prop{gen: genC04, eval: evalC04, pure: true}
+	props["C11"] = &prop{gen: genC11, eval: evalC11, pure: true}
 }
 
 func boolStr(b bool) string {
@@ -417,6 +417,10 @@ func (g *Gen) ra() []byte {
 func (g *Gen) pwSecret() []byte {
 	if g.Chance(1, 12) {
 		return nil
+	}
+	if g.Chance(1, 10) {
+		// long secrets (nothing in RFC 2865 bounds them; fixed-size scratch buffers would)
+		return g.RandBytes(g.Pick(65, 100, 110, 111, 112, 113, 127, 128, 129, 200, 300))
 	}
 	return g.RandBytes(g.Pick(1, 2, 8, 16, 31, 64))
 }
